@@ -142,6 +142,7 @@ func TestC15Gaps(t *testing.T) {
 	progs["extra_empty_find_then_find"] = []string{"find", "all", "find", "all", "'a'"}
 	progs["extra_empty_group"] = []string{"find", "all", "(", ")", "'a'", "{", "}", "=", "s"}
 	progs["extra_three_way_or"] = []string{"find", "all", "'cat'", "or", "'dog'", "or", "'emu'", "or", "not", "'x'"}
+	progs["extra_parenthesised_expressions"] = []string{"set", "f", "to", "transform", "set", "n", "to", "(", "matchLength", "+", "1", ")", "*", "(", "2", "-", "matchLength", ")", "return", "(", "match", "+", "n", ")", "end", "set", "p", "to", "pattern", "letter", "begin", "return", "(", "match", "==", "'a'", ")", "or", "not", "(", "match", "<", "'c'", ")", "end", "replace", "all", "p", "with", "f"}
 	progs["extra_true_false"] = []string{"set", "f", "to", "function", "if", "true", "and", "not", "false", "then", "return", "'y'", "end", "return", "'n'", "end", "replace", "all", "'a'", "with", "f"}
 	names := make([]string, 0, len(progs))
 	for n := range progs {
